@@ -30,7 +30,7 @@ RULE = ("PAIRS (A, B) of geometries (point clouds and meshes of independent topo
 THEOREM_BACKED = ('explicit_pointwise (decoded = dequantize(quantize x), any FloatOps instance), on_grid (exact), '
                   'on_grid_float_partial (relative-error model: k <= 2^bits-1 only for bits <= 20, sharp: '
                   'quantized_exceeds_max_witness_21), on_grid_float_grid (grid-exact rounding model: bits <= 22), '
-                  'decodeParameters_encodeParameters_roundtrip; cited from C01: options_get_set_float / '
+                  'decodeParameters_encodeParameters_roundtrip, requantize_grid_point / decode_encode_idempotent (exact arithmetic: grid points are fixed points, decode . encode is idempotent); cited from C01: options_get_set_float / '
                   'draco_options_attribute_resolution (the explicit origin / range pass the option store as float bit '
                   'patterns, attribute -> global -> default); the oracle demands k >= 0 and tags k > 2^bits-1')
 CORRESPONDENCE_ONLY = "that the codec applies exactly this pipeline to explicitly quantized attributes under every method is what the oracle samples"
